@@ -88,6 +88,14 @@ impl HReader {
         self.data.len() as u64
     }
 }
+/// the kind of a hard error rotates with its offset (any error the reader reports must surface as an I/O error)
+fn injected(k: u64) -> std::io::Error {
+    use std::io::ErrorKind::*;
+    const KINDS: [std::io::ErrorKind; 9] =
+        [Other, OutOfMemory, WouldBlock, TimedOut, ConnectionReset, InvalidData, UnexpectedEof, PermissionDenied, BrokenPipe];
+    std::io::Error::new(KINDS[(k % 9) as usize], "injected fault")
+}
+
 impl Read for HReader {
     fn read(&mut self, buf: &mut [u8]) -> std::io::Result<usize> {
         self.touched = true;
@@ -99,7 +107,7 @@ impl Read for HReader {
             Mode::Hard(k) => {
                 if self.pos >= k {
                     self.reported_error = true;
-                    return Err(std::io::Error::new(std::io::ErrorKind::Other, "injected fault"));
+                    return Err(injected(k));
                 }
                 lim = lim.min(k);
             }
@@ -155,7 +163,7 @@ impl Seek for HReader {
         if let Mode::Hard(k) = self.mode {
             if target > k {
                 self.reported_error = true;
-                return Err(std::io::Error::new(std::io::ErrorKind::Other, "injected fault"));
+                return Err(injected(k));
             }
         }
         let new = if self.clamp && target > self.len() { self.len().max(self.pos) } else { target };
